@@ -122,6 +122,13 @@ def _data_column(cls: str, n: int, c: int, dtag: str):
 _POLARS_DT = {"sb": "Utf8", "s": "Utf8", "p": "Utf8", "x": "Utf8", "ni": "Int64", "nf": "Float64", "u": "Utf8", "b": "Boolean", "fe": "Float64", "i": "Int64", "f": "Float64", "z": "Utf8", "m": "Utf8"}
 
 
+def _keytext(prefix, lvl, k):
+    """Group value text; a key written '<k>p' is the value <k> followed by one blank (a different value for the library)."""
+    if isinstance(k, str) and k.endswith("p"):
+        return f"{prefix}{lvl}v{k[:-1]} "
+    return f"{prefix}{lvl}v{k}"
+
+
 def table_frame(spec: dict, dtag: str = "D"):
     """-> (polars df, colnames, shown, removed, raw rows)"""
     import polars as pl
@@ -135,10 +142,10 @@ def table_frame(spec: dict, dtag: str = "D"):
             data[f"g{lvl}"] = [None if k is None else int(k) for k in keys]
             schema[f"g{lvl}"] = pl.Int64
             continue
-        data[f"g{lvl}"] = ["-----" if k == -1 else (None if k is None else f"G{lvl}v{k}") for k in keys]
+        data[f"g{lvl}"] = ["-----" if k == -1 else (None if k is None else _keytext("G", lvl, k)) for k in keys]
         schema[f"g{lvl}"] = pl.Utf8
     for lvl, keys in enumerate(spec.get("subline_by") or []):
-        data[f"u{lvl}"] = ["-----" if k == -1 else f"U{lvl}v{k}" for k in keys]
+        data[f"u{lvl}"] = ["-----" if k == -1 else _keytext("U", lvl, k) for k in keys]
         schema[f"u{lvl}"] = pl.Utf8
     for lvl, keys in enumerate(spec.get("group_by") or []):
         kt = spec.get("group_by_dtype")  # int / float / bool key values (0, 0.0, False are legitimate, falsy, values)
@@ -147,7 +154,8 @@ def table_frame(spec: dict, dtag: str = "D"):
             data[f"k{lvl}"] = [None if k is None else conv(k) for k in keys]
             schema[f"k{lvl}"] = {"int": pl.Int64, "float": pl.Float64, "bool": pl.Boolean}[kt]
             continue
-        data[f"k{lvl}"] = [None if k is None else f"K{lvl}v{k}" for k in keys]
+        texts = (spec.get("group_by_values") or {}).get(str(lvl))  # explicit key texts per ordinal (e.g. texts holding '|')
+        data[f"k{lvl}"] = [None if k is None else (texts[k] if texts else f"K{lvl}v{k}") for k in keys]
         schema[f"k{lvl}"] = pl.Utf8
     for c, cls in enumerate(cols):
         data[f"c{c}"] = _data_column(cls, n, c, dtag)
@@ -314,6 +322,8 @@ def _build_section(spec, page, dtag="D", htag="H") -> Built:
     hm = spec.get("header", "default")
     if hm == "off":
         bkw["as_colheader"] = False
+    if "as_colheader" in spec:   # the body flag on its own, crossed with any header mode
+        bkw["as_colheader"] = spec["as_colheader"]
     body = rtf.RTFBody(**bkw)
 
     hattrs = dict(spec.get("header_attrs") or {})
